@@ -205,17 +205,26 @@ def validate(run, files, par):
 
 def pipeline(run, note):
     """The whole pipeline; `note(run, ev)` is the property-specific non-triviality bookkeeping per recorded event."""
+    t0 = time.time()
     universe, chains = closed_model_and_cases(run)
+    t1 = time.time()
     weak_configs(run)
+    t2 = time.time()
     cases = cases_from_chains(chains, run.seed)
     shards = 8 if run.tier == "quick" else 12
+    run.build_drv()
+    t3 = time.time()
     files = record(run, "tlc", universe, cases, [], shards)
     rnd = random.Random(1000 + run.seed)
     nch, nmu = (4000, 3000) if run.tier == "quick" else (60000, 40000)
     xuni, xcases, xmulti = explorer_cases(rnd, nch, nmu, id0=len(cases))
     files += record(run, "exp", xuni, xcases, xmulti, shards)
-    par = 6 if run.tier == "quick" else 12
+    t4 = time.time()
+    par = 8 if run.tier == "quick" else 12
     validate(run, files, par)
+    t5 = time.time()
+    run.notes.append("stage wall times: closed model+generation %.0fs, spec mutations %.0fs, build %.0fs, replay on real code %.0fs, "
+                     "trace validation %.0fs" % (t1 - t0, t2 - t1, t3 - t2, t4 - t3, t5 - t4))
     for f in files:
         for line in open(f):
             if '"e":"Cfg"' in line[:40] or line.startswith('{"alias"'):
